@@ -1,5 +1,8 @@
 import CoxeterVerif.Lemmas.Polyhedron
 import CoxeterVerif.Lemmas.PolytriBoundary
+import CoxeterVerif.Lemmas.PolytriFan
+import CoxeterVerif.Lemmas.PolytriWinding
+import CoxeterVerif.Lemmas.PolyhedronFaces
 import CoxeterVerif.Props.C04
 /-!
   # C02 — general (non-convex) polyhedron volume, centroid, inertia are exact
@@ -375,5 +378,331 @@ example : Polytri.triangulate exSq = .ok exSqT ∧ exSq.length ≤ exSqT.length 
 
 example : Triangulates exSq exSqT :=
   polytri_triangulates _ _ polytri_exSq (by simp [exSq, exSqT])
+
+/-! ### deepening round: orientation, termination, success and failure of the ear clipping -/
+
+/-- **every emitted triangle passed the ear test**: `dot(normal, (c−b)×(b−a)) > 1e-6 |normal|²`
+with `normal = calculate_normal_3d(polygon)`, for polygons of any length and whatever exit the loop
+took. -/
+theorem polytri_oriented (poly : List (V3 ℝ)) (tris : List (Tri ℝ))
+    (h : Polytri.triangulate poly = .ok tris) : ∀ t ∈ tris, Polytri.EarTest (Polytri.newell poly) t := by
+  unfold Polytri.triangulate at h
+  simp only [] at h
+  split_ifs at h
+  exact Polytri.loop_oriented _ _ _ _ _ _ h (by simp)
+
+/-- the triangles' vertices are vertices of the polygon -/
+theorem polytri_vertices_mem (poly : List (V3 ℝ)) (tris : List (Tri ℝ))
+    (h : Polytri.triangulate poly = .ok tris) : ∀ t ∈ tris, t.a ∈ poly ∧ t.b ∈ poly ∧ t.c ∈ poly := by
+  unfold Polytri.triangulate at h
+  simp only [] at h
+  split_ifs at h
+  exact Polytri.loop_mem _ poly _ _ _ _ _ h (by simp) (by simp)
+
+/-- **positive orientation**: every emitted triangle is counter-clockwise about the polygon's own
+vector area `Σ p×q = −newell`, with more than `1e-6` of its size: `n · nvec(t) > 0` for every
+negative multiple `n` of the Newell vector (in particular the polygon's unit normal). -/
+theorem polytri_positive (poly : List (V3 ℝ)) (tris : List (Tri ℝ))
+    (h : Polytri.triangulate poly = .ok tris) {n : V3 ℝ} {k : ℝ} (hk : k < 0)
+    (hn : n = V3.smul k (Polytri.newell poly)) : OrientedBy3 n 1 tris := by
+  intro t ht
+  have he := (Polytri.earTest_iff _ t.a t.b t.c).mp (polytri_oriented poly tris h t ht)
+  have hK : 0 ≤ (lit 1 / lit 1000000 : ℝ) * V3.dot (Polytri.newell poly) (Polytri.newell poly) := by
+    simp only [Scalar.lit, Scalar.ofNat_real, V3.dot]
+    nlinarith [mul_self_nonneg (Polytri.newell poly).x, mul_self_nonneg (Polytri.newell poly).y,
+      mul_self_nonneg (Polytri.newell poly).z]
+  have hpos : 0 < Polytri.o3 (Polytri.newell poly) t.a t.b t.c := lt_of_le_of_lt hK he
+  have : Spec3.triArea n t = (-k) * Polytri.o3 (Polytri.newell poly) t.a t.b t.c / 2 := by
+    rw [hn]; simp only [Spec3.triArea, Polytri.o3, V3.dot, V3.smul_x, V3.smul_y, V3.smul_z, Scalar.lit,
+      Scalar.ofNat_real]; push_cast; ring
+  rw [one_mul, this]
+  have : 0 < (-k) * Polytri.o3 (Polytri.newell poly) t.a t.b t.c := mul_pos (by linarith) hpos
+  linarith
+
+/-- **the triangle areas add up to the polygon's area**: for a planar polygon with unit normal `n`
+opposite to the Newell vector, clipped into `n − 2` triangles, `Polygon.area` (projection shoelace,
+`Poly2.area`) equals the sum of the triangles' areas, each of which is positive. -/
+theorem polytri_area_sum (poly : List (V3 ℝ)) (tris : List (Tri ℝ))
+    (h : Polytri.triangulate poly = .ok tris) (hcount : poly.length ≤ tris.length + 2)
+    {n : V3 ℝ} {d k : ℝ} (hpl : InPlane n d poly) (hunit : V3.norm n = 1) (hk : k < 0)
+    (hn : n = V3.smul k (Polytri.newell poly)) (hne : tris ≠ []) :
+    Poly2.area poly n = Spec3.area n tris ∧ Poly2.signedArea poly n = Spec3.area n tris ∧
+      ∀ t ∈ tris, 0 < Spec3.triArea n t := by
+  have ht := polytri_triangulates poly tris h hcount
+  have ho := polytri_positive poly tris h hk hn
+  refine ⟨?_, signedArea_general_tri hpl hunit ht, fun t hT => by simpa using ho t hT⟩
+  have := area_general_tri (Or.inl rfl) hpl hunit ht ho hne
+  simpa using this
+
+/-- **the winding sum of `Polygon.is_inside` is additive over the ear clipping**: in any planar frame
+`g`, the polygon's half-turn sum about any point equals the sum of the half-turn sums round the emitted
+triangles (each of which is `2` inside / `0` outside a positively oriented triangle by C06's
+`winding_triangle`). -/
+theorem polytri_winding (poly : List (V3 ℝ)) (tris : List (Tri ℝ))
+    (h : Polytri.triangulate poly = .ok tris) (hcount : poly.length ≤ tris.length + 2)
+    (g : V3 ℝ → Inside2D.P2 ℝ) (p : Inside2D.P2 ℝ) :
+    Inside2D.Polygon.halfTurnSum (poly.map g) p
+      = (tris.map fun t => Inside2D.Polygon.halfTurn p (g t.a) (g t.b)
+          + Inside2D.Polygon.halfTurn p (g t.b) (g t.c) + Inside2D.Polygon.halfTurn p (g t.c) (g t.a)).sum :=
+  Polytri.halfTurnSum_additive g p poly tris (polytri_triangulates poly tris h hcount)
+
+/-- **termination / error kinds**: the model never runs out of the fuel `n² + 2n + 8` it is given;
+its only error is the Python's `ValueError` ("No normal found" / "Triangulation failed"). -/
+theorem polytri_error_kind (poly : List (V3 ℝ)) (e : String)
+    (h : Polytri.triangulate poly = .error e) : e = "ValueError" := by
+  unfold Polytri.triangulate at h
+  simp only [] at h
+  split_ifs at h
+  · exact (Except.error.inj h).symm
+  · refine Polytri.loop_error_kind _ _ _ _ _ _ (Nat.zero_le _) ?_ h
+    simp only [List.size_toArray]; omega
+
+/-- **success on fan-clippable polygons**: if the polygon is not degenerate for `calculate_normal_3d`,
+lies in a plane orthogonal to its Newell vector `N`, and every triangle `(p₀, p_j, p_k)`, `j < k`,
+through its first vertex is counter-clockwise with `o3 > 1e-6 |N|²` (more than `1e-6` of the polygon's
+area), the ear clipping returns the fan from `p₀` — `n − 2` triangles, never an error. -/
+theorem polytri_fan_ok (a : V3 ℝ) (l : List (V3 ℝ)) (d : ℝ)
+    (hd : Polytri.degenerate (a :: l) (Polytri.newell (a :: l)) = false)
+    (hpl : InPlane (Polytri.newell (a :: l)) d (a :: l))
+    (hmar : Polytri.FanMargin (Polytri.newell (a :: l)) a l) :
+    Polytri.triangulate (a :: l) = .ok (Polytri.fan a l) := by
+  have hK : 0 < V3.dot (Polytri.newell (a :: l)) (Polytri.newell (a :: l)) := by
+    unfold Polytri.degenerate at hd
+    simp only [decide_eq_false_iff_not, not_le] at hd
+    refine lt_of_le_of_lt ?_ hd
+    simp only [Scalar.lit, Scalar.ofNat_real]
+    have : 0 ≤ Polytri.edgeSq (a :: l) * Polytri.edgeSq (a :: l) := mul_self_nonneg _
+    push_cast; nlinarith
+  exact Polytri.triangulate_fan a l hd (Polytri.fanOK_of_margin a l d hK hpl hmar)
+
+/-- **never an error for a strictly convex face (with margin)**: every ordered vertex triple
+counter-clockwise with more than `1e-6` of the polygon's area. -/
+theorem polytri_convex_ok (a : V3 ℝ) (l : List (V3 ℝ)) (d : ℝ)
+    (hd : Polytri.degenerate (a :: l) (Polytri.newell (a :: l)) = false)
+    (hpl : InPlane (Polytri.newell (a :: l)) d (a :: l))
+    (hconv : Polytri.ConvexMargin (Polytri.newell (a :: l)) (a :: l)) :
+    ∃ tris, Polytri.triangulate (a :: l) = .ok tris ∧ (a :: l).length ≤ tris.length + 2 ∧
+      Triangulates (a :: l) tris :=
+  ⟨Polytri.fan a l, polytri_fan_ok a l d hd hpl hconv.fan,
+    by rw [Polytri.fan_length]; simp only [List.length_cons]; omega, Polytri.fan_chain a l⟩
+
+/-- **the failure exit**: a polygon (≥ 3 vertices, not degenerate for `calculate_normal_3d`) none of
+whose corners is clippable — no adjacent duplicate; every corner below the ear threshold
+`1e-6 |N|²` or blocked by another vertex — and whose vector area is not negligible makes
+`triangulate` raise `ValueError("Triangulation failed")`.  A strictly convex polygon with all corner
+triangles ≤ `1e-6` of its area (regular `n`-gon, `n ≥ 350`) is in this class (notes/C02.md, D1:
+the driver evaluates the model exactly over ℚ on that witness in every run); `polytri_stuck_example` is a
+small kernel-checked instance. -/
+theorem polytri_stuck_fails (poly : List (V3 ℝ)) (h3 : 3 ≤ poly.length)
+    (hd : Polytri.degenerate poly (Polytri.newell poly) = false)
+    (hun : ∀ j, j < poly.length → Polytri.Unclippable (Polytri.newell poly) poly.toArray j)
+    (hnd : ¬ Polytri.restDegenerate (Polytri.newell poly) poly) :
+    Polytri.triangulate poly = .error "ValueError" := by
+  unfold Polytri.triangulate
+  simp only [hd, Bool.false_eq_true, if_false]
+  refine Polytri.loop_stuck _ _ _ _ _ (by simpa using h3) (Nat.zero_le _) ?_ ?_ (by simpa using hnd)
+  · simp only [List.size_toArray]
+    have : 0 ≤ poly.length * poly.length := Nat.zero_le _
+    omega
+  · intro j _ hj; exact hun j (by simpa using hj)
+
+/-! #### non-vacuity: the unit square meets the hypotheses of `polytri_fan_ok` / `polytri_convex_ok` -/
+
+theorem exSq_degenerate : Polytri.degenerate exSq (Polytri.newell exSq) = false := by
+  rw [newell_exSq]
+  simp [Polytri.degenerate, Polytri.edgeSq, Polytri.edgeSq.go, exSq, V3.dot, Scalar.lit]
+  norm_num
+
+theorem exSq_convexMargin : Polytri.ConvexMargin (Polytri.newell exSq) exSq := by
+  rw [newell_exSq]
+  simp only [exSq, Polytri.ConvexMargin, Polytri.FanMargin, List.pairwise_cons, List.mem_cons,
+    List.not_mem_nil, or_false, forall_eq_or_imp, forall_eq, List.Pairwise.nil, and_true,
+    IsEmpty.forall_iff, implies_true]
+  simp only [Polytri.o3, V3.dot, V3.cross, V3.sub_x, V3.sub_y, V3.sub_z, Scalar.lit, Scalar.ofNat_real]
+  norm_num
+
+theorem exSq_inPlane : InPlane (Polytri.newell exSq) 0 exSq := by
+  rw [newell_exSq]
+  intro v hv
+  simp only [exSq, List.mem_cons, List.not_mem_nil, or_false] at hv
+  rcases hv with rfl | rfl | rfl | rfl <;> simp [V3.dot]
+
+example : ∃ tris, Polytri.triangulate exSq = .ok tris ∧ exSq.length ≤ tris.length + 2 ∧
+    Triangulates exSq tris :=
+  polytri_convex_ok _ _ 0 exSq_degenerate exSq_inPlane exSq_convexMargin
+
+/-- the hypotheses of `polytri_oriented`, `polytri_positive`, `polytri_area_sum` are met by the square
+(normal `ẑ = −½ · newell`) -/
+example : OrientedBy3 (⟨0, 0, 1⟩ : V3 ℝ) 1 exSqT :=
+  polytri_positive exSq exSqT polytri_exSq (k := -1/2) (by norm_num)
+    (by rw [newell_exSq]; ext <;> simp [V3.smul])
+
+/-! ### deepening round: the volume formula from the faces (no per-face exactness hypothesis) -/
+
+/-- a certified face whose triangulation is the ear clipping's own output:
+planar (stated with the first corner's cross product), `vs'` a rotation of `vs`, clipped into
+`n − 2` triangles -/
+structure ClippedFace (f : Poly3.FaceCert) : Prop where
+  plane : ∀ v ∈ f.vs, V3.dot f.cc v = V3.dot f.cc f.v0
+  rot : f.vs' ~r f.vs
+  clip : Polytri.triangulate f.vs = .ok f.T
+  count : f.vs.length ≤ f.T.length + 2
+
+theorem ClippedFace.valid {f : Poly3.FaceCert} (h : ClippedFace f) : f.Valid where
+  plane := h.plane
+  rot := h.rot
+  tri := polytri_triangulates f.vs f.T h.clip h.count
+  triPlane := fun t ht => by
+    obtain ⟨ha, hb, hc⟩ := polytri_vertices_mem f.vs f.T h.clip t ht
+    exact ⟨h.plane _ ha, h.plane _ hb, h.plane _ hc⟩
+
+/-- **C02 volume, from the faces.** For faces that are planar, have a non-reflex first corner
+(`cc · areaVector > 0`: the first corner turns the way the polygon does), keep their cyclic order under
+`_reorder_verts` and are clipped into `n − 2` triangles, `Σ (−d_i) A_i / 3` — with `d_i` from
+`_find_equations` and `A_i` from `get_face_area` — is the exact volume of ANY tetrahedralised solid
+bounded by the clipped surface. No hypothesis on the values of `d_i`, `A_i` is left. -/
+theorem poly_volume_exact_faces (faces : List Poly3.FaceCert) (hc : ∀ f ∈ faces, ClippedFace f)
+    (hccw : ∀ f ∈ faces, 0 < V3.dot f.cc (Spec3.areaVector f.vs))
+    {Ts : List (Tet ℝ)} (hch : ChainEq (faces.flatMap (·.T)) (Ts.flatMap Tet.bdry)) :
+    Poly3.volumeOf (faces.map (·.vs)) (faces.map Poly3.FaceCert.A) = Spec.vol Ts := by
+  rw [Poly3.volumeOf_eq, Poly3.volume_faces faces (fun f hf => (hc f hf).valid) hccw,
+    signedVolume_chain hch]
+
+/-- **C02, the object level.** `Poly3.observe` is the model of what a `Polyhedron` reports
+(`volume`, `surface_area`, `get_face_area()`, `centroid`, `inertia_tensor`, with their error paths),
+from the faces' vertex lists and the external data of `get_face_area`.  If `get_face_area` does not
+raise, every face is planar with a non-reflex first corner, keeps its cyclic order and is clipped into
+`n − 2` triangles, and the clipped surface bounds a tetrahedralised solid of positive volume, then the
+reported volume, centroid and inertia tensor are the exact integrals, and the face areas are the
+`|n · areaVector|` of the faces. -/
+theorem polyhedron_observe_exact (faces : List Poly3.FaceCert) (areas : List ℝ)
+    (hA : Poly3.faceAreas (faces.map Poly3.FaceCert.datum) = .ok areas)
+    (hc : ∀ f ∈ faces, ClippedFace f)
+    (hccw : ∀ f ∈ faces, 0 < V3.dot f.cc (Spec3.areaVector f.vs))
+    {Ts : List (Tet ℝ)} (hch : ChainEq (faces.flatMap (·.T)) (Ts.flatMap Tet.bdry))
+    (hpos : 0 < Spec.vol Ts) :
+    Poly3.observe (faces.map Poly3.FaceCert.datum)
+      = ⟨.ok (Spec.vol Ts, Poly3.surfaceArea areas, areas), .ok (Spec.centroid Ts),
+          .ok (Spec.inertia Ts)⟩ ∧ areas = faces.map Poly3.FaceCert.A := by
+  have hareas := Poly3.faceAreas_ok hA
+  have hS := Poly3.surfaceTriangulation_ok (faces := faces) (fun f hf => (hc f hf).clip)
+  have hvol := poly_volume_exact_faces faces hc hccw hch
+  have hcen := poly_centroid_exact hch hpos.ne'
+  have hmap : (faces.map Poly3.FaceCert.datum).map (·.1) = faces.map (·.vs) := by
+    simp [List.map_map, Function.comp_def, Poly3.FaceCert.datum]
+  refine ⟨?_, hareas⟩
+  unfold Poly3.observe
+  simp only [hmap, hA, hS, hareas, hvol, hcen, poly_inertia_exact hch hpos]
+
+/-- the stored normal of a face with a REFLEX first corner points the wrong way: its volume term
+changes sign (C09's `normal-from-reflex-first-corner`; unreachable for `volume` in the Python because
+`get_face_area` rejects non-convex faces, but `_equations` / `normals` carry it) -/
+theorem face_term_reflex_fails {f : Poly3.FaceCert} (h : ClippedFace f)
+    (hcw : V3.dot f.cc (Spec3.areaVector f.vs) < 0) :
+    (-f.d) * f.A / 3 = -(f.T.map fun t => V3.det3 t.a t.b t.c / 6).sum :=
+  Poly3.face_volume_term_reflex h.valid hcw
+
+
+/-- **soundness of the per-face certificate** the driver evaluates exactly over ℚ on the
+implementation's own vertices (`poly.facecert`): it yields the hypotheses `ClippedFace` and
+`cc · areaVector > 0` of `poly_volume_exact_faces` / `polyhedron_observe_exact` (with `vs' = vs`:
+the harness checks separately that `ConvexPolygon` kept the vertex order). -/
+theorem faceCheck_sound (vs : List (V3 ℝ)) (hull : Nat) (h : Poly3.faceCheck vs = true) :
+    ∃ T, ClippedFace ⟨vs, vs, T, hull⟩ ∧
+      0 < V3.dot (Poly3.cornerCross vs) (Spec3.areaVector vs) := by
+  unfold Poly3.faceCheck at h
+  simp only [Bool.and_eq_true] at h
+  obtain ⟨⟨hp, hc⟩, hk⟩ := h
+  unfold Poly3.clipCheck at hk
+  split at hk
+  · rename_i T hT
+    refine ⟨T, ⟨?_, List.IsRotated.refl _, hT, of_decide_eq_true hk⟩, ?_⟩
+    · intro v hv
+      unfold Poly3.planarCheck at hp
+      simp only [List.all_eq_true] at hp
+      exact of_decide_eq_true (hp v hv)
+    · unfold Poly3.ccwCheck at hc
+      simpa [Scalar.lit] using of_decide_eq_true hc
+  · cases hk
+
+example : Poly3.faceCheck exSq = true := by
+  unfold Poly3.faceCheck Poly3.clipCheck
+  rw [polytri_exSq]
+  simp [Poly3.planarCheck, Poly3.ccwCheck, Poly3.cornerCross, Spec3.areaVector, Spec3.cyc, exSq, exSqT,
+    V3.cross, V3.dot, V3.sum, V3.add, V3.zero, Scalar.lit, Scalar.eqb]
+
+/-! #### non-vacuity of `polytri_stuck_fails` -/
+
+def exStuck : List (V3 ℝ) := [⟨2,1,0⟩, ⟨4,1,0⟩, ⟨0,3,0⟩, ⟨0,1,0⟩, ⟨3,1,0⟩]
+
+theorem newell_exStuck : Polytri.newell exStuck = ⟨0, 0, -8⟩ := by
+  simp [Polytri.newell, Polytri.newell.go, exStuck, V3.zero, Scalar.lit]
+  norm_num
+
+theorem getLoop5 (a b c d e : V3 ℝ) :
+    Polytri.getLoop #[a, b, c, d, e] 0 = a ∧ Polytri.getLoop #[a, b, c, d, e] 1 = b ∧
+    Polytri.getLoop #[a, b, c, d, e] 2 = c ∧ Polytri.getLoop #[a, b, c, d, e] 3 = d ∧
+    Polytri.getLoop #[a, b, c, d, e] 4 = e ∧ Polytri.getLoop #[a, b, c, d, e] 5 = a ∧
+    Polytri.getLoop #[a, b, c, d, e] 6 = b :=
+  ⟨rfl, rfl, rfl, rfl, rfl, by simp [Polytri.getLoop], by simp [Polytri.getLoop]⟩
+
+theorem others5 (a b c d e : V3 ℝ) :
+    Polytri.others #[a, b, c, d, e] 0 = [d, e] ∧ Polytri.others #[a, b, c, d, e] 1 = [a, e] ∧
+    Polytri.others #[a, b, c, d, e] 2 = [a, b] ∧ Polytri.others #[a, b, c, d, e] 3 = [b, c] ∧
+    Polytri.others #[a, b, c, d, e] 4 = [c, d] := by
+  refine ⟨?_, ?_, ?_, ?_, ?_⟩ <;> simp [Polytri.others]
+
+theorem exStuck_unclippable : ∀ j, j < exStuck.length →
+    Polytri.Unclippable (Polytri.newell exStuck) exStuck.toArray j := by
+  rw [newell_exStuck]
+  intro j hj
+  simp only [exStuck, List.length_cons, List.length_nil] at hj
+  obtain ⟨g0, g1, g2, g3, g4, g5, g6⟩ := getLoop5 (⟨2,1,0⟩ : V3 ℝ) ⟨4,1,0⟩ ⟨0,3,0⟩ ⟨0,1,0⟩ ⟨3,1,0⟩
+  obtain ⟨o0, o1, o2, o3, o4⟩ := others5 (⟨2,1,0⟩ : V3 ℝ) ⟨4,1,0⟩ ⟨0,3,0⟩ ⟨0,1,0⟩ ⟨3,1,0⟩
+  have harr : exStuck.toArray = #[⟨2,1,0⟩, ⟨4,1,0⟩, ⟨0,3,0⟩, ⟨0,1,0⟩, ⟨3,1,0⟩] := rfl
+  rw [harr]
+  interval_cases j
+  · refine ⟨?_, fun _ => ?_⟩
+    · rw [g0, g1, g2]; norm_num [Polytri.veq, Scalar.eqb]
+    · rw [g0, g1, g2, o0]
+      norm_num [Polytri.anyPointInTriangle, V3.cross, V3.det3, V3.dot, Scalar.lit]
+  · refine ⟨?_, fun _ => ?_⟩
+    · rw [g1, g2, g3]; norm_num [Polytri.veq, Scalar.eqb]
+    · rw [g1, g2, g3, o1]
+      norm_num [Polytri.anyPointInTriangle, V3.cross, V3.det3, V3.dot, Scalar.lit]
+  · refine ⟨?_, fun _ => ?_⟩
+    · rw [g2, g3, g4]; norm_num [Polytri.veq, Scalar.eqb]
+    · rw [g2, g3, g4, o2]
+      norm_num [Polytri.anyPointInTriangle, V3.cross, V3.det3, V3.dot, Scalar.lit]
+  · refine ⟨?_, fun h => ?_⟩
+    · rw [g3, g4, g5]; norm_num [Polytri.veq, Scalar.eqb]
+    · exfalso; revert h
+      simp only [Polytri.EarTest, Polytri.corner, g3, g4, g5]
+      norm_num [V3.cross, V3.dot, Scalar.lit]
+  · refine ⟨?_, fun h => ?_⟩
+    · rw [g4, g5, g6]; norm_num [Polytri.veq, Scalar.eqb]
+    · exfalso; revert h
+      simp only [Polytri.EarTest, Polytri.corner, g4, g5, g6]
+      norm_num [V3.cross, V3.dot, Scalar.lit]
+
+/-- the hypotheses of `polytri_stuck_fails` are met by a pentagon of area 4 with a zero-width spike
+(`(3,1)` lies on the edge `(2,1)–(4,1)`): three corners pass the ear test but are blocked by a vertex on their
+boundary, two are straight — the model (like the Python) raises -/
+theorem polytri_stuck_example : Polytri.triangulate exStuck = .error "ValueError" := by
+  apply polytri_stuck_fails exStuck (by simp [exStuck])
+  · rw [newell_exStuck]
+    simp [Polytri.degenerate, Polytri.edgeSq, Polytri.edgeSq.go, exStuck, V3.dot, Scalar.lit]
+    norm_num
+  · exact exStuck_unclippable
+  · rw [newell_exStuck]
+    unfold Polytri.restDegenerate
+    have hv : Polytri.restVec exStuck = ⟨0, 0, 8⟩ := by
+      apply V3.ext_get
+      intro i hi
+      rw [Polytri.restVec_get]
+      cases3 i <;>
+        (simp [sumEdges, cycleEdges_eq, exStuck, Polytri.crossPhi, V3.cross, V3.get] <;> norm_num)
+    rw [hv]
+    norm_num [V3.dot, Scalar.lit]
 
 end
